@@ -6,4 +6,8 @@ def add(run, tier):
     run.add(CallEncodeTask('C08'))
     for combined in (True, False):
         run.add(DecodeTask('C08', combined, False))
+        # the payload integer is int.from_bytes of exactly the bytes received - also for payloads shorter or longer than a
+        # CAN frame (proprietary messages with few data bytes; whole fast-packet messages)
+        for n in ((1, 2, 3, 5, 7, 12) if combined else (1, 2, 3, 5, 7)):
+            run.add(DecodeTask('C08', combined, False, data_len=n))
     run.assume('_call_decode_function hands the payload integer (int.from_bytes of the data, big endian) to the generated decode function of the frame\'s PGN, once (checked with the function inlined into _decode)')
